@@ -238,3 +238,7 @@ _amend('C05', 'Whole-trace order ACROSS transition functions and the 100-continu
        'The documented 100-continue restart is enforced on htp_connp_RES_BODY_DETERMINE (every header released once, table cleared, progress back to LINE, counter + 1, the headers transition NOT run; on every '
        'other path progress never decreases); REQ_IDLE / RES_IDLE (a response is attached to the next transaction in arrival order and the index always advances) and htp_connp_tx_remove (a destroyed '
        'transaction is detached from BOTH directions) carry "no callback after transaction-complete". Whole-trace order ACROSS transition functions is carried only by these per-function contracts.')
+_amend('C10', 'Steady-state heap over 10^4 transactions is the composition (paper).',
+       'Caps on assembled headers: repeated fields - counter <= 64 and the newcomer dropped beyond it (request and response producers, dfcc contracts); folded lines - on the real REQ_HEADERS / RES_HEADERS, with a '
+       'pending header of ANY length (unbounded symbolic size), a continuation line is appended iff the pending length is below HTP_MAX_HEADER_FOLDED, so an assembled header never exceeds cap - 1 + one line '
+       '(BOUNDED in the length of the continuation line only: 4 / 6 bytes; response side: continuation lines without a colon). Steady-state heap over 10^4 transactions is the composition (paper).')
